@@ -33,7 +33,9 @@ Upd1 == << EBin("ADD", ESelf, ELit(IntV(1))), ECollect(ESelf), ELit(StrV(C)), EN
 Cmp1 == << ELit(IntV(1)), ELit(StrV(B)), ECollect(ELit(IntV(7))), EPath(B), ELit(NumV(3, 2)), EObject(ELit(StrV(C)), ELit(IntV(7))) >>
 LitSeq(xs) == ECollect(FoldLeft(LAMBDA acc, x : IF acc.op = "EMPTY" THEN x ELSE EUnion(acc, x), EEmpty, xs))
 PathVals == << LitSeq(<<ELit(StrV(A))>>), LitSeq(<<ELit(StrV(A)), ELit(StrV(B))>>), LitSeq(<<ELit(StrV(C)), ELit(IntV(1))>>), LitSeq(<<ELit(StrV(B)), ELit(StrV(B)), ELit(IntV(0))>>),
-              LitSeq(<<ELit(StrV(A)), ELit(IntV(-1))>>), LitSeq(<<ELit(IntV(1))>>), ECollect(EEmpty) >>
+              LitSeq(<<ELit(StrV(A)), ELit(IntV(-1))>>), LitSeq(<<ELit(IntV(1))>>), ECollect(EEmpty),
+              \* a path is data: `*` in it is a character, the key "a*" is not the keys a and ab
+              LitSeq(<<ELit(StrV(<<"a", "*">>))>>), LitSeq(<<ELit(StrV(<<"*">>)), ELit(StrV(A))>>) >>
 SetVals == << ELit(IntV(7)), ECollect(ELit(IntV(7))), EPath(B), EPipe(EPath(C), EPath(A)), EBin("ALTERNATIVE", EPipe(EPath(C), EPath(B)), ELit(IntV(0))), EBin("ALTERNATIVE", Idx(EPath(A), 5), ELit(StrV(B))),
              EBin("EQUALS", EPipe(EPath(C), EPath(C)), ELit(Null)), ENul("LENGTH") >>
 Builders == << ENul("KEYS"), EBin("SUBTRACT", ESelf, ECollect(ELit(IntV(2)))), ENul("REVERSE"), ENul("SORT"), EUn("SORT_BY", EPath(A)), ENul("UNIQUE"), EUn("UNIQUE_BY", EPath(A)), EUn("GROUP_BY", EPath(A)),
